@@ -3,6 +3,8 @@ package main
 // Discharging obligations: solvers are raced per obligation.
 
 import (
+	"fmt"
+	"regexp"
 	"bytes"
 	"context"
 	"os"
@@ -31,6 +33,8 @@ var solvers = []solverSpec{
 		return []string{"cvc5", "--strings-exp", "--tlimit=" + itoa(t*1000), "--full-saturate-quant", p}
 	}},
 	{"z3", func(p string, t int) []string { return []string{"z3", "-T:" + itoa(t), p} }},
+	{"z3-ematch", func(p string, t int) []string { return []string{"z3", "-T:" + itoa(t), "smt.mbqi=false", p} }},
+	{"z3-new-ematch", func(p string, t int) []string { return []string{"z3-new", "-T:" + itoa(t), "smt.mbqi=false", p} }},
 }
 
 func itoa(i int) string { return fmtInt(i) }
@@ -145,6 +149,108 @@ type job struct {
 }
 
 func solveAll(jobs []*job, timeoutS int, cross bool, workers int) {
+	// phase 1: every obligation gets one short attempt with z3-new, all cores busy
+	var hard []*job
+	var mu sync.Mutex
+	runPool(jobs, workers, func(j *job) {
+		if strings.Contains(j.ob.SMT, "(assert (not true))") && !j.ob.MustSat {
+			j.res = SolveResult{Status: "unsat", Solver: "trivial"}
+			return
+		}
+		if err := os.WriteFile(j.path, []byte(j.ob.SMT), 0o644); err != nil {
+			j.res = SolveResult{Status: "error", Output: err.Error()}
+			return
+		}
+		if j.ob.MustSat {
+			// vacuity guards only need "not unsat": one short attempt
+			j.res = runSolver(context.Background(), solvers[0], j.path, 2)
+			return
+		}
+		if (j.ob.Kind == "inv-pres" || j.ob.Kind == "post") && fitsRe.MatchString(j.ob.SMT) {
+			j.res = SolveResult{Status: "unknown"}
+		} else {
+			j.res = runSolver(context.Background(), solvers[0], j.path, min(3, timeoutS))
+		}
+		if j.res.Status != "unsat" && j.res.Status != "sat" {
+			mu.Lock()
+			hard = append(hard, j)
+			mu.Unlock()
+		}
+	})
+	// phase 2: the rest is raced on all three solvers, few at a time so that each solver gets a core
+	// phase 2a: case split on the "append fits in place" conditions (each case is much easier for the solvers'
+	// quantifier instantiation than the ite-merged heap); all cases unsat <=> the obligation is unsat
+	var harder []*job
+	runPool(hard, max(1, workers/2), func(j *job) {
+		if r, ok := splitSolve(j, timeoutS); ok {
+			j.res = r
+			return
+		}
+		mu.Lock()
+		harder = append(harder, j)
+		mu.Unlock()
+	})
+	// phase 2b: the rest is raced on all solver configurations, few at a time so that each gets a core
+	runPool(harder, max(1, workers/len(solvers)), func(j *job) {
+		j.res = raceSolvers(j.path, timeoutS)
+	})
+	if cross {
+		runPool(jobs, max(1, workers/2), func(j *job) {
+			if j.res.Status == "unsat" && j.res.Solver != "trivial" && !j.ob.MustSat {
+				for _, sp := range solvers {
+					if sp.name == j.res.Solver {
+						continue
+					}
+					r := runSolver(context.Background(), sp, j.path, timeoutS)
+					if r.Status == "unsat" {
+						j.res.Cross = sp.name
+						break
+					}
+				}
+			}
+		})
+	}
+}
+
+var fitsRe = regexp.MustCompile(`\(define-fun (fits![0-9]+) \(\) Bool`)
+
+// splitSolve: case analysis over the fits!N symbols defined in the script (at most 3)
+func splitSolve(j *job, timeoutS int) (SolveResult, bool) {
+	ms := fitsRe.FindAllStringSubmatch(j.ob.SMT, -1)
+	if len(ms) == 0 || len(ms) > 3 {
+		return SolveResult{}, false
+	}
+	start := time.Now()
+	total := 0.0
+	for mask := 0; mask < 1<<len(ms); mask++ {
+		var extra strings.Builder
+		for i, m := range ms {
+			if mask&(1<<i) != 0 {
+				extra.WriteString("(assert " + m[1] + ")\n")
+			} else {
+				extra.WriteString("(assert (not " + m[1] + "))\n")
+			}
+		}
+		smt := strings.Replace(j.ob.SMT, "(check-sat)", extra.String()+"(check-sat)", 1)
+		path := strings.TrimSuffix(j.path, ".smt2") + fmt.Sprintf(".case%d.smt2", mask)
+		if err := os.WriteFile(path, []byte(smt), 0o644); err != nil {
+			return SolveResult{}, false
+		}
+		r := runSolver(context.Background(), solvers[0], path, timeoutS)
+		if r.Status != "unsat" {
+			r2 := runSolver(context.Background(), solvers[3], path, timeoutS)
+			if r2.Status != "unsat" {
+				return SolveResult{}, false
+			}
+			r = r2
+		}
+		total += r.TimeS
+	}
+	_ = start
+	return SolveResult{Status: "unsat", Solver: "z3-new+case-split", TimeS: total}, true
+}
+
+func runPool(jobs []*job, workers int, f func(*job)) {
 	var wg sync.WaitGroup
 	ch := make(chan *job)
 	for w := 0; w < workers; w++ {
@@ -152,15 +258,7 @@ func solveAll(jobs []*job, timeoutS int, cross bool, workers int) {
 		go func() {
 			defer wg.Done()
 			for j := range ch {
-				if strings.Contains(j.ob.SMT, "(assert (not true))") && !j.ob.MustSat {
-					j.res = SolveResult{Status: "unsat", Solver: "trivial"}
-					continue
-				}
-				if err := os.WriteFile(j.path, []byte(j.ob.SMT), 0o644); err != nil {
-					j.res = SolveResult{Status: "error", Output: err.Error()}
-					continue
-				}
-				j.res = solveFile(j.path, timeoutS, cross)
+				f(j)
 			}
 		}()
 	}
@@ -169,4 +267,29 @@ func solveAll(jobs []*job, timeoutS int, cross bool, workers int) {
 	}
 	close(ch)
 	wg.Wait()
+}
+
+func raceSolvers(path string, timeoutS int) SolveResult {
+	rctx, cancel := context.WithCancel(context.Background())
+	defer cancel()
+	ch := make(chan SolveResult, len(solvers))
+	for _, sp := range solvers {
+		sp := sp
+		go func() { ch <- runSolver(rctx, sp, path, timeoutS) }()
+	}
+	var last SolveResult
+	var outs []string
+	for range solvers {
+		r := <-ch
+		outs = append(outs, r.Solver+": "+firstLine(r.Output))
+		if r.Status == "unsat" || r.Status == "sat" {
+			cancel()
+			return r
+		}
+		if last.Status == "" || r.Status == "unknown" {
+			last = r
+		}
+	}
+	last.Output = strings.Join(outs, "\n")
+	return last
 }
